@@ -11,10 +11,12 @@ rsync -a --exclude .git /repo/ $W/repo/
 cp -r /verif/harness $W/h && sed -i "s#=> /repo#=> $W/repo#" $W/h/go.mod
 DEMO=$(ls $DIR/*_test.go 2>/dev/null | head -1)
 DEMODIR=.
+RUN=.
 if [ -n "$DEMO" ]; then
+  RUN="^($(grep -o -E '^func (Test[A-Za-z0-9_]*)' "$DEMO" | sed 's/func //' | paste -sd'|'))\$"
   d=$(grep -o -m1 -E 'renderers/[a-z]+|text/|tests/[a-z]+' "$DEMO" | head -1); [ -n "$d" ] && [ -d "$W/repo/$d" ] && grep -q -E "^package (pdf|ps|svg|text|rasterizer)" "$DEMO" && DEMODIR=$d
   cp "$DEMO" $W/repo/$DEMODIR/zz_demo_test.go
-  ( cd $W/repo/$DEMODIR && go test -vet=off -count=1 -run . . 2>&1 | tail -3 ) > $W/demo_before.txt 2>&1
+  ( cd $W/repo/$DEMODIR && go test -vet=off -count=1 -run "$RUN" . 2>&1 | tail -3 ) > $W/demo_before.txt 2>&1
   rm -f $W/repo/$DEMODIR/zz_demo_test.go
 fi
 if ! ( cd $W/repo && git apply --unsafe-paths -p1 --directory= "$DIR/patch.diff" 2>$W/apply.err || patch -p1 -s < "$DIR/patch.diff" ); then echo "PATCH DOES NOT APPLY"; cat $W/apply.err; exit 3; fi
@@ -22,7 +24,7 @@ if ! ( cd $W/repo && git apply --unsafe-paths -p1 --directory= "$DIR/patch.diff"
 ( cd $W/repo && go test -vet=off -count=1 . ./text/... ./renderers/pdf/... ./renderers/ps/... ./renderers/svg/... ./tests/... 2>&1 | grep -E "^--- FAIL|^FAIL|^ok" ) > $W/tests_after.txt
 if [ -n "$DEMO" ]; then
   cp "$DEMO" $W/repo/$DEMODIR/zz_demo_test.go
-  ( cd $W/repo/$DEMODIR && go test -vet=off -count=1 -run . . 2>&1 | tail -3 ) > $W/demo_after.txt 2>&1
+  ( cd $W/repo/$DEMODIR && go test -vet=off -count=1 -run "$RUN" . 2>&1 | tail -3 ) > $W/demo_after.txt 2>&1
   rm -f $W/repo/$DEMODIR/zz_demo_test.go
 fi
 ( cd $W/h && go build -tags verif -o $W/vcheck ./cmd/vcheck ) > $W/hbuild.txt 2>&1 || { echo "HARNESS DOES NOT BUILD"; tail $W/hbuild.txt; exit 3; }
